@@ -23,6 +23,10 @@ def expected_reg_line(s, reg, pd, cose_bytes, aaguid):
                              fw.wbool(bool(f & 4)), fw.wb(reg.att_obj), fw.wbool(bool(f & 8)), fw.wbool(bool(f & 16))])
 
 
+CLIENT_EXT = [{}, {"credProps": {}}, {"credProps": {"rk": True}}, {"credProps": {"rk": False}}, {"appid": True}, {"credProps": {"rk": None}}, {"largeBlob": {"supported": True}},
+              {"prf": {"enabled": True}}, {"credProps": {"rk": True, "authenticatorDisplayName": "Key"}}, {"hmacCreateSecret": True, "credProps": {}}, {"unknownExtension": [1, {"a": None}]}]
+
+
 def run(tier, seed):
     chk = fw.Check("C05", tier, seed)
     br, ob = fw.standard_prelude(chk, with_coqchk=(tier == "thorough"))
@@ -45,7 +49,9 @@ def run(tier, seed):
                 s.flags |= 0x08
             s.count = counters[i % len(counters)] if i % 7 else rng.randrange(2 ** 32)
             s.cred_id = rng.randbytes(idlens[i % len(idlens)] if i % 5 else rng.randrange(1, 1024))
-            s.aaguid = rng.randbytes(16)
+            s.aaguid = bytes([(0x04, 0x10, 0x00, 0xFF, rng.randrange(256), rng.randrange(256))[i % 6]]) + rng.randbytes(15)
+            if fmt == "packed" and i % 2 == 0:
+                s.k["packed_aaguid_ext"] = True
             if s.flags & 0x80:
                 s.ext = cbor2.dumps(cborgen.gen_ext(rng))
             s.require_uv = bool(s.flags & 4) and bool(i % 2)
@@ -69,6 +75,8 @@ def run(tier, seed):
                 deco = [lambda p: b"\n" + p, lambda p: b"# RP trust anchor\n" + p, lambda p: b"subject=/CN=anchor\nissuer=/CN=anchor\n" + p,
                         lambda p: p.replace(b"\n", b"\r\n"), lambda p: p + b"\ntrailing text\n"][(i // 6) % 5]
                 pd = dict(pd, roots={f: [deco(p) for p in l] for f, l in pd["roots"].items()})
+            # whatever client extension results a conformant client reports (clientExtensionResults is no part of what is verified)
+            reg.client_ext = CLIENT_EXT[i % len(CLIENT_EXT)]
             cred = authsim.Cred(kind)
             aag = bytes(16) if fmt == "fido-u2f" else s.aaguid
             exp = expected_reg_line(s, reg, pd, cred.cose_bytes, aag)
@@ -89,6 +97,7 @@ def run(tier, seed):
         kind = list(authsim.KINDS)[i % len(authsim.KINDS)]
         s = authcat.base_variation(authcat.Scn(kind), rng)
         pol, a = s.build()
+        a.client_ext = [{}, {"appid": False}, {"prf": {"results": {"first": "AAAA"}}}, {"largeBlob": {"blob": "AAAA"}}, {"credProps": {}}, {"uvm": [[2, 4, 2]]}][i % 6]
         il, ml = A.run_case(pol, a, authrun.FORMS[i % 3], "accept", "conformant-assertion")
         f = s.flags
         exp = "OK " + " ".join([fw.wb(s.cred_id), fw.wi(s.count), fw.wbool(bool(f & 8)), fw.wbool(bool(f & 16)), fw.wbool(bool(f & 4))])
